@@ -433,7 +433,8 @@ func qS(cmd string, as []string) string {
 type topoGen struct{ r *Rng }
 
 var inKinds = []string{"b", "b4", "b2h", "b2v", "pb", "p", "gpi", "av", "ah", "ar", "a", "iv", "ih", "ir", "i", "rg", "rb", "mono",
-	"b,extra", "pb,av", ",b", "b4,", "gpi,b", "av,ah,ar", "x", "B", "bb", " b", "rg,x", "mono,"}
+	"b,extra", "pb,av", ",b", "b4,", "gpi,b", "av,ah,ar", "x", "B", "bb", " b", "rg,x", "mono,",
+	"b4,pb,gpi", "b,a,b", "pb,p,x,y", "gpi,,b", "a,b,c,d", "iv,b,pb", "b2h,b2v,b"}
 var outKinds = []string{"rgb", "mono", "rg", "rgb,x", "RGB"}
 var extKinds = []string{"steps", "pos", "xsteps1", "step", "steps,pos", "pos "}
 var rotations = []float32{90, -90, 45.5, 180, 0.1, 1e-7, 1e21, 270, -0.25, 3}
@@ -808,6 +809,20 @@ func genC14(r *Rng, sessions int, tier string) {
 	q("topo.randomize", true)
 	q("topo.clean")
 	q("topo.roundtrip")
+	// large type indexes (more types than the section-marker number 250): sequential renumbering must still give 1..n
+	for _, nT := range []int{249, 250, 251, 300} {
+		t := &topology.Topology{TypeIndex: map[uint32]topology.TopologyHWcTypeDef{}, HWc: []topology.TopologyHWcomponent{}}
+		for i := 0; i < nT; i++ {
+			storeTD(t.TypeIndex, uint32(1000+3*i), &topology.TopologyHWcTypeDef{W: 10 + i, In: "b"})
+		}
+		for i := 0; i < 6; i++ {
+			t.HWc = append(t.HWc, topology.TopologyHWcomponent{Id: uint32(i + 1), X: 10 * i, Y: 5, Type: uint32(1000 + 3*r.Intn(nT))})
+		}
+		g.load(t)
+		q("topo.randomize", true)
+		topoTag = fingerprint(append(encTopo(g.current()), itoa(nT)))
+		g.lookups(g.current(), false)
+	}
 	for i := 0; i < sessions; i++ {
 		t := g.topology(true)
 		g.load(t)
